@@ -261,6 +261,10 @@ def run(ctx):
                           {"source": c.src, "address": c.emit, "words": c.impl["words"]}, expected=want, observed=a)
     ctx.extra["spec_decodes"] = len(decode_jobs)
 
+    # ---- operands that are labels: in the same file, in other linked files, in including and included files
+    from . import worlds
+    worlds.stream_decode(ctx, ctx.rng("c01-worlds"), 1200 if ctx.thorough else 200, impl)
+
 
 def search(ctx, broken):
     if not ctx.thorough:
